@@ -155,6 +155,14 @@ def check_state(acc, pendulum, z, inst):
             acc.mismatch("replace", "+".join(sorted(kw)), dict(case, kw={k: str(v) for k, v in kw.items()}), got, want)
     if z is not None:
         check_foreign_receiver(acc, pendulum, x, b, case)
+    # mixed awareness: whatever the native class answers (TypeError for -, <; False for ==) the DateTime answers too
+    other = dt_.datetime(2001, 2, 3, 4, 5, 6, 7, tzinfo=None if z is not None else dt_.timezone.utc)
+    for name, fn in (("sub", lambda v: v - other), ("rsub", lambda v: other - v), ("lt", lambda v: v < other), ("eq", lambda v: v == other),
+                     ("ne", lambda v: v != other), ("ge", lambda v: v >= other)):
+        got, want = _try(lambda: fn(x)), _try(lambda: fn(b))
+        acc.c["evaluations"] += 1
+        if got != want:
+            acc.mismatch("mixed-awareness", name, dict(case, acc=name), got, want)
     f7 = obs.fields(x)
     iso = x.isoformat()
     mix = {"for_json": (x.for_json(), iso), "format-empty": (format(x, ""), str(x)), "str": (str(x), b.isoformat(" ")),
